@@ -100,6 +100,13 @@ fn pat_cond(p: &syn::Pat, place: &str, binds: &mut Vec<String>) -> Result<Option
             }
             Ok(Some(cs.join(" || ")))
         }
+        syn::Pat::TupleStruct(ts) if ts.path.is_ident("Some") && ts.elems.len() == 1 => {
+            let inner = pat_cond(&ts.elems[0], &format!("{place}.unwrap()"), binds)?;
+            Ok(Some(match inner {
+                Some(c) => format!("({place}.is_some() && ({c}))"),
+                None => format!("{place}.is_some()"),
+            }))
+        }
         _ => Err("R4: unsupported pattern".into()),
     }
 }
@@ -443,6 +450,27 @@ impl<'ast, 's> Visit<'ast> for Finder<'s> {
         let name = m.path.segments.last().map(|s| s.ident.to_string()).unwrap_or_default();
         if self.on("R5") && name == "format" {
             self.push(range_of(m), "fmt_dropped()".to_string(), "R5");
+            return;
+        }
+        if self.on("R4") && name == "matches" {
+            // `matches!(E, P)` is defined as `match E { P => true, _ => false }`
+            struct MArgs { e: syn::Expr, p: syn::Pat }
+            impl syn::parse::Parse for MArgs {
+                fn parse(input: syn::parse::ParseStream) -> syn::Result<Self> {
+                    let e: syn::Expr = input.parse()?;
+                    let _: syn::Token![,] = input.parse()?;
+                    let p = syn::Pat::parse_multi_with_leading_vert(input)?;
+                    let _ = input.parse::<Option<syn::Token![,]>>();
+                    Ok(MArgs { e, p })
+                }
+            }
+            match m.parse_body::<MArgs>() {
+                Ok(a) => {
+                    let rep = format!("(match {} {{ {} => true, _ => false }})", self.txt(&a.e), self.txt(&a.p));
+                    self.push(range_of(m), rep, "R4");
+                }
+                Err(_) => self.err = Some("lost anchor: R4 cannot parse matches!".into()),
+            }
             return;
         }
         if self.on("R9") && (name == "assert" || name == "debug_assert") {
